@@ -180,6 +180,59 @@ pub fn gen_c04(tier: Tier, seed: u64) -> Case {
     base_case("C04", seed, &g, program, class)
 }
 
+/// C11 class: a SEALED journal whose newest records are clears (they leave no trace in any tree)
+/// is recovered; sequence numbers handed out afterwards must still lie above them, or a later
+/// restart replays the old clear over newer, already flushed writes.
+pub fn gen_c11_sealed_clear(_tier: Tier, seed: u64) -> Case {
+    let mut r = Rng::stream(seed, "workload");
+    let n_keys = r.range(2, 4) as usize;
+    let mut g = G::new(&mut r, 3, n_keys, DbKind::Plain, false);
+    g.cfg.check_every = 0;
+    g.cfg.rotation_threshold = 512;
+    g.cfg.journal_lz4 = false;
+    for o in &mut g.cfg.opts {
+        o.max_memtable = 0;
+        o.blob = None;
+    }
+    // a = cleared keyspace, b = pin (never flushed, keeps the sealed journal registered),
+    // c = busy keyspace whose flush rotates the journal
+    let (a, b, c) = (0u8, 1u8, 2u8);
+    let mut program = g.create_initial(3);
+    let v = g.val_sized(8, true);
+    program.push(Op::Insert { ks: b, key: g.key(), val: v });
+    let v = g.val_sized(700, false);
+    program.push(Op::Insert { ks: c, key: g.key(), val: v });
+    for _ in 0..g.r.range(1, 3) {
+        let v = g.val_sized(24, true);
+        program.push(Op::Insert { ks: a, key: g.key(), val: v });
+    }
+    for _ in 0..g.r.range(1, 2) {
+        program.push(Op::Clear { ks: a });
+    }
+    program.push(Op::Rotate { ks: c });
+    program.push(Op::WorkerStep);
+    if g.r.chance(1, 2) {
+        program.push(Op::WorkerStep);
+    }
+    program.push(Op::Reopen);
+    // after the restart: a new write to the cleared keyspace, flushed, its journal sealed too
+    for _ in 0..g.r.range(1, 2) {
+        let v = g.val_sized(700, false);
+        program.push(Op::Insert { ks: a, key: g.key(), val: v });
+    }
+    program.push(Op::Rotate { ks: a });
+    program.push(Op::WorkerStep);
+    program.push(Op::WorkerStep);
+    if g.r.chance(1, 2) {
+        let v = g.val_sized(8, true);
+        program.push(Op::Insert { ks: b, key: g.key(), val: v });
+    }
+    program.push(Op::Reopen);
+    program.push(Op::Check);
+    program.push(Op::Reopen);
+    base_case("C11", seed, &g, program, "sealed-journal-ends-in-clear".into())
+}
+
 /// C11: after reopening, new writes supersede everything recovered
 pub fn gen_c11(tier: Tier, seed: u64) -> Case {
     let mut r = Rng::stream(seed, "workload");
